@@ -82,6 +82,14 @@ SPEC_NAMES = {
     "call_result",
     "given",
     "given_value",
+    "runs_action",
+    "net_written",
+    "net_ops",
+    "call_index",
+    "call_args",
+    "clock0",
+    "clock",
+    "call_time",
 }
 
 
@@ -264,6 +272,8 @@ class SpecMixin:
         if isinstance(obj, SymOpt):
             obj = obj.value
         v = obj.fields.get(name, UNSET)
+        if type(v).__name__ == "LazyUnion":
+            v = self.materialise(obj, name)
         if v is UNSET:
             return False
         if isinstance(v, SymMaybe):
@@ -275,6 +285,8 @@ class SpecMixin:
         obj = self.ev(e.args[0], fr)
         name = e.args[1].value
         v = obj.fields.get(name, UNSET)
+        if type(v).__name__ == "LazyUnion":
+            v = self.materialise(obj, name)
         if isinstance(v, SymMaybe):
             return v.value
         return v
@@ -679,6 +691,98 @@ class SpecMixin:
                 return r
         from .interp import BOTTOM
 
+        return BOTTOM
+
+    def sp_runs_action(self, e, fr):
+        """runs_action(entry, action): the spawned entry (a coroutine made by calling `action`, a
+        (fn, *args) tuple given to a nursery, or such a tuple whose fn is a wrapper closure that
+        holds `action` in a variable) runs `action`"""
+        from .sym import Closure
+
+        entry = self.ev(e.args[0], fr)
+        action = self.ev(e.args[1], fr)
+        if isinstance(entry, SObj) and entry.cls == "pyvc:CoroOf":
+            return entry.fields["fn"] is action
+        if isinstance(entry, tuple) and entry:
+            fn = entry[0]
+            if fn is action:
+                return True
+            if isinstance(fn, Closure):
+                f = fn.frame
+                while f is not None:
+                    if any(v is action for v in f.locals.values()):
+                        return True
+                    f = f.parent
+        return False
+
+    def sp_net_written(self, e, fr):
+        """payloads handed to the transport (write / send_all) in this call, in order"""
+        tr = self.traces.get("net", [])
+        if any(isinstance(x, TraceGap) for x in tr):
+            raise ContractError("net_written over a trace with a loop gap")
+        return PList([x[1] for x in tr if x[0] in ("write", "send_all")])
+
+    def sp_net_ops(self, e, fr):
+        """names of the transport operations of this call, in order (after the last loop gap)"""
+        tr = self.traces.get("net", [])
+        out = []
+        for x in tr:
+            if isinstance(x, TraceGap):
+                out = []
+            else:
+                out.append(x[0] if x[0] != "error" else "error:" + x[1])
+        return tuple(out)
+
+    def sp_call_index(self, e, fr):
+        """call_index('Class.method'): position of the first recorded contract call whose name ends
+        with that text (after the last loop gap), -1 if there is none"""
+        name = self.ev(e.args[0], fr)
+        tr = self.traces.get("calls", [])
+        idx = -1
+        for i, x in enumerate(tr):
+            if isinstance(x, TraceGap):
+                idx = -1
+                continue
+            if isinstance(x, tuple) and isinstance(x[0], str) and x[0].endswith(name) and idx < 0:
+                idx = i
+        return idx
+
+    def sp_call_args(self, e, fr):
+        """call_args('Class.method'): argument tuple (self first) of the first such call"""
+        name = self.ev(e.args[0], fr)
+        for x in self.traces.get("calls", []):
+            if isinstance(x, tuple) and isinstance(x[0], str) and x[0].endswith(name):
+                return tuple(x[1:])
+        from .interp import BOTTOM
+
+        self.bottoms = getattr(self, "bottoms", 0) + 1
+        self.bottom_where = f"call_args({name!r}): no such call"
+        return BOTTOM
+
+    def sp_clock0(self, e, fr):
+        """ghost time at the entry of the unit"""
+        from .sym import SymReal
+
+        return SymReal(z3.Real("t0"))
+
+    def sp_clock(self, e, fr):
+        from . import models_rt as rt
+        from .sym import SymReal
+
+        return SymReal(rt.now(self))
+
+    def sp_call_time(self, e, fr):
+        """ghost time at which the first recorded contract call with that name was made"""
+        from .sym import SymReal
+
+        name = self.ev(e.args[0], fr)
+        for (n, t) in self.traces.get("call_times", []):
+            if isinstance(n, str) and n.endswith(name):
+                return SymReal(t)
+        from .interp import BOTTOM
+
+        self.bottoms = getattr(self, "bottoms", 0) + 1
+        self.bottom_where = f"call_time({name!r}): no such call"
         return BOTTOM
 
     def _opt(self, e, fr):
